@@ -6,8 +6,8 @@
   index-based 1-D algorithm `binary_transition` + `slices_from_targets`) versus the four structural
   recursions `ffill`, `bfillSpec`, `fillLeading`, `fillTrailing` on the flattened line.
 
-  `fixed = false` is the code as it is; `fixed = true` the candidate repair of the backward
-  bridging count (see `directional_backward_counterexample`).
+  The model mirrors the repaired tree (/repo commits 5a58a46, 53925e1, c25795d).  The behaviour of the
+  pinned tree is kept in NA.lean as `…Pinned` definitions; their counterexamples are proved at the end.
 -/
 import SFModel.NALemmas8
 
@@ -24,40 +24,23 @@ abbrev flat (blocks : List (RBlock α)) : List α := (blocks.map RBlock.cells).f
 /-- `fillna_forward(limit, axis=1)`: for EVERY partition of a row into blocks (1-D or 2-D, whatever the
     other rows make of the block-level shortcuts) and every limit, the block-wise algorithm with its
     bridging values / counts / masks equals the spec applied to the flattened row. -/
-theorem directional_refines (limit : Nat) (fixed : Bool) (blocks : List (RBlock α)) :
-    (rowDirAxis1 isna true limit fixed blocks).flatten = ffillSpec isna limit (flat blocks) :=
-  rowDir_fwd limit fixed blocks
+theorem directional_refines (limit : Nat) (blocks : List (RBlock α)) :
+    (rowDirAxis1 isna true limit blocks).flatten = ffillSpec isna limit (flat blocks) :=
+  rowDir_fwd limit blocks
 
-/- Full backward statement (FALSE of the code as it is, see the counterexample below):
-     ∀ limit blocks, (rowDirAxis1 isna false limit false blocks).flatten = bfillSpec isna limit (flat blocks) -/
-
-/-- `fillna_backward(limit, axis=1)` = forward fill of the reversed row: proved for the code as it is
-    when `limit = 0` (unlimited), and for every limit once `bridging_count` is taken from the slice
-    next to the source edge (`fixed = true`).  Missing for `fixed = false ∧ limit > 0`: false. -/
-theorem directional_backward_refines_partial (limit : Nat) (fixed : Bool)
-    (h : fixed = true ∨ limit = 0) (blocks : List (RBlock α)) :
-    (rowDirAxis1 isna false limit fixed blocks).flatten = bfillSpec isna limit (flat blocks) :=
-  rowDir_bwd limit fixed h blocks
+/-- `fillna_backward(limit, axis=1)` = forward fill of the reversed row, for every partition into blocks and
+    every limit (the code iterates `reversed(blocks)`, fills each block from the right and takes the
+    bridging count from the slice next to the left edge). -/
+theorem directional_backward_refines (limit : Nat) (blocks : List (RBlock α)) :
+    (rowDirAxis1 isna false limit blocks).flatten = bfillSpec isna limit (flat blocks) :=
+  rowDir_bwd limit blocks
 
 /-- missing = 0 in the examples -/
 def isna0 (x : Nat) : Bool := x == 0
 
-/-- The code as it is, backward, limit 2, row `[NA | NA 5 NA NA 7]` (1-D block then a 2-D block):
-    `bridging_count` is read from the LAST yielded slice (length 2) instead of the one next to the
-    left edge (length 1), so the 1-D block to the left is not filled. -/
-theorem directional_backward_counterexample :
-    ¬ (∀ (limit : Nat) (blocks : List (RBlock Nat)),
-        (rowDirAxis1 isna0 false limit false blocks).flatten = bfillSpec isna0 limit (flat blocks)) := by
-  intro h
-  have := h 2 [⟨true, false, 0, []⟩, ⟨false, false, 0, [5, 0, 0, 7]⟩]
-  revert this
-  decide
-
-example : (rowDirAxis1 isna0 false 2 false [⟨true, false, 0, []⟩, ⟨false, false, 0, [5, 0, 0, 7]⟩]).flatten
-    = [0, 5, 5, 7, 7, 7] := by decide
-example : (rowDirAxis1 isna0 false 2 true [⟨true, false, 0, []⟩, ⟨false, false, 0, [5, 0, 0, 7]⟩]).flatten
+example : (rowDirAxis1 isna0 false 2 [⟨true, false, 0, []⟩, ⟨false, false, 0, [5, 0, 0, 7]⟩]).flatten
     = [5, 5, 5, 7, 7, 7] := by decide
-example : (rowDirAxis1 isna0 true 2 false [⟨false, false, 4, [0]⟩, ⟨true, false, 0, []⟩, ⟨false, true, 0, [0, 9]⟩]).flatten
+example : (rowDirAxis1 isna0 true 2 [⟨false, false, 4, [0]⟩, ⟨true, false, 0, []⟩, ⟨false, true, 0, [0, 9]⟩]).flatten
     = [4, 4, 4, 0, 0, 9] := by decide
 
 /-- `fillna_forward / fillna_backward (axis=0)`: one column of one block, any limit. -/
@@ -88,11 +71,11 @@ theorem sided_refines (leading : Bool) (v : α) (blocks : List (RBlock α)) :
   | true => exact rowSided_leading v blocks
   | false => exact rowSided_trailing v blocks
 
-/-- `fillna_leading / fillna_trailing (axis=0)`: one column of a block with at least one row. -/
-theorem sided_axis0_refines (leading : Bool) (v : α) (oneD others : Bool) (col : List α) (hne : col ≠ []) :
+/-- `fillna_leading / fillna_trailing (axis=0)`: one column of a block, also without rows. -/
+theorem sided_axis0_refines (leading : Bool) (v : α) (oneD others : Bool) (col : List α) :
     colSidedAxis0 isna leading v oneD others col =
-      .ok (if leading then fillLeading isna v col else fillTrailing isna v col) :=
-  colSidedAxis0_spec leading v oneD others col hne
+      if leading then fillLeading isna v col else fillTrailing isna v col :=
+  colSidedAxis0_spec leading v oneD others col
 
 /-- `Series.fillna_leading / fillna_trailing`. -/
 theorem series_sided_refines (leading : Bool) (v : α) (a : List α) :
@@ -107,13 +90,13 @@ example : (rowSidedAxis1 isna0 false 9 [⟨true, false, 0, []⟩, ⟨false, fals
 
 /-! ### non-missing cells are never altered -/
 
-/-- Directional fills along axis 1 — the code as it is or repaired, both directions, every limit,
-    every layout and every incoming state — return every non-missing cell unchanged (and keep the shape). -/
-theorem never_touches_nonmissing (fwd : Bool) (limit : Nat) (fixed : Bool) (blocks : List (RBlock α)) :
-    (rowDirAxis1 isna fwd limit fixed blocks).flatten.length = (flat blocks).length ∧
+/-- Directional fills along axis 1 — both directions, every limit, every layout and every incoming
+    state — return every non-missing cell unchanged (and keep the shape). -/
+theorem never_touches_nonmissing (fwd : Bool) (limit : Nat) (blocks : List (RBlock α)) :
+    (rowDirAxis1 isna fwd limit blocks).flatten.length = (flat blocks).length ∧
     ∀ (p : Nat) (x : α), (flat blocks)[p]? = some x → isna x = false →
-      (rowDirAxis1 isna fwd limit fixed blocks).flatten[p]? = some x :=
-  rowDir_keeps fwd limit fixed blocks
+      (rowDirAxis1 isna fwd limit blocks).flatten[p]? = some x :=
+  rowDir_keeps fwd limit blocks
 
 /-- The specs (hence, by the refinement theorems, the 1-D, axis-0 and forward axis-1 algorithms)
     keep non-missing cells. -/
@@ -158,14 +141,14 @@ theorem sided_never_touches_nonmissing (v : α) (l : List α) (p : Nat) (x : α)
 /-- Forward axis-1 fill, every layout: a missing cell at `p` whose nearest non-missing predecessor is at
     `q` receives that value iff `limit = 0` or `p - q ≤ limit` (so each run gets at most `limit` filled
     cells and they are the ones adjacent to the source); a missing cell without predecessor stays. -/
-theorem at_most_limit (limit : Nat) (fixed : Bool) (blocks : List (RBlock α)) (p : Nat) (x : α)
+theorem at_most_limit (limit : Nat) (blocks : List (RBlock α)) (p : Nat) (x : α)
     (hx : (flat blocks)[p]? = some x) (hn : isna x = true) :
     (∀ (q : Nat) (y : α), (flat blocks)[q]? = some y → isna y = false → q < p →
         (∀ r, q < r → r < p → NaAt isna (flat blocks) r) →
-        (rowDirAxis1 isna true limit fixed blocks).flatten[p]? =
+        (rowDirAxis1 isna true limit blocks).flatten[p]? =
           some (if limit = 0 ∨ p - q ≤ limit then y else x)) ∧
     ((∀ r, r < p → NaAt isna (flat blocks) r) →
-        (rowDirAxis1 isna true limit fixed blocks).flatten[p]? = some x) := by
+        (rowDirAxis1 isna true limit blocks).flatten[p]? = some x) := by
   rw [directional_refines]
   refine ⟨?_, ?_⟩
   · intro q y hy hyn hqp hb
@@ -174,17 +157,17 @@ theorem at_most_limit (limit : Nat) (fixed : Bool) (blocks : List (RBlock α)) (
     have := ffill_get_lead (isna := isna) limit (flat blocks) none 0 p x hx hn hall
     simpa [fillOne, ffillSpec] using this
 
-/-- The same for the backward fill (repaired count, or unlimited): nearest non-missing successor. -/
-theorem at_most_limit_backward_partial (limit : Nat) (fixed : Bool) (h : fixed = true ∨ limit = 0)
+/-- The same for the backward fill, every layout and limit: nearest non-missing successor. -/
+theorem at_most_limit_backward (limit : Nat)
     (blocks : List (RBlock α)) (p : Nat) (x : α)
     (hx : (flat blocks)[p]? = some x) (hn : isna x = true) :
     (∀ (q : Nat) (y : α), (flat blocks)[q]? = some y → isna y = false → p < q →
         (∀ r, p < r → r < q → NaAt isna (flat blocks) r) →
-        (rowDirAxis1 isna false limit fixed blocks).flatten[p]? =
+        (rowDirAxis1 isna false limit blocks).flatten[p]? =
           some (if limit = 0 ∨ q - p ≤ limit then y else x)) ∧
     ((∀ r, p < r → r < (flat blocks).length → NaAt isna (flat blocks) r) →
-        (rowDirAxis1 isna false limit fixed blocks).flatten[p]? = some x) := by
-  rw [directional_backward_refines_partial isna limit fixed h]
+        (rowDirAxis1 isna false limit blocks).flatten[p]? = some x) := by
+  rw [directional_backward_refines]
   refine ⟨?_, ?_⟩
   · intro q y hy hyn hpq hb
     exact bfill_get_src limit _ p q x y hx hn hy hyn hpq hb
@@ -212,51 +195,31 @@ theorem dropna_exact (a : List α) :
 /-- `np.all` / `np.any` over the isna cells of one line -/
 def condOf (condAll : Bool) (l : List Bool) : Bool := if condAll then l.all id else l.any id
 
-/-- `Frame.dropna(axis=0)`: for every layout (2-D unified mask, or the single 1-D block) the row key
-    keeps row `i` iff the condition does not hold on its isna cells. -/
-theorem dropna_rows_exact (condAll : Bool) (masks : List (Block Bool)) (hne : masks ≠ [])
-    (h1 : ∀ rows, masks = [⟨true, rows⟩] → ∀ r ∈ rows, ∃ c, r = [c]) :
+/-- `Frame.dropna(axis=0)`: for every layout the row key keeps row `i` iff the condition does not hold on
+    its isna cells. -/
+theorem dropna_rows_exact (condAll : Bool) (masks : List (Block Bool)) (hne : masks ≠ []) :
     dropnaKeep false condAll masks =
       .ok (some ((hcat (masks.map (·.rows))).map fun r => !condOf condAll r), none) := by
-  match masks, hne, h1 with
-  | [], hne, _ => exact absurd rfl hne
-  | [⟨true, rows⟩], _, h1 =>
-    simp only [dropnaKeep, Bool.false_eq_true, if_false, List.map_cons, List.map_nil, hcat]
-    congr 3
-    rw [List.map_map]
-    apply List.map_congr_left
-    intro r hr
-    obtain ⟨c, rfl⟩ := h1 rows rfl r hr
-    cases condAll <;> simp [condOf]
-  | [⟨false, rows⟩], _, _ =>
-    simp [dropnaKeep, condOf, List.map_map, Function.comp_def]
-  | m :: m2 :: ms, _, _ =>
-    simp [dropnaKeep, condOf, List.map_map, Function.comp_def]
+  match masks, hne with
+  | [], hne => exact absurd rfl hne
+  | m :: ms, _ => simp [dropnaKeep, condOf, List.map_map, Function.comp_def]
 
-/-- `Frame.dropna(axis=1)`: whenever the data is not ONE 1-D block, the column key keeps column `j` iff
-    the condition does not hold on its isna cells.  Missing: the single 1-D block (next theorem). -/
-theorem dropna_columns_exact_partial (condAll : Bool) (masks : List (Block Bool)) (hne : masks ≠ [])
-    (h1 : ∀ rows, masks ≠ [⟨true, rows⟩]) :
+/-- `Frame.dropna(axis=1)`: for every layout — also ONE 1-D block, which is one column — the column key
+    keeps column `j` iff the condition does not hold on its isna cells. -/
+theorem dropna_columns_exact (condAll : Bool) (masks : List (Block Bool)) (hne : masks ≠ []) :
     dropnaKeep true condAll masks =
       .ok (none, some ((columnsOf
           ((masks.map fun m => if m.oneD then 1 else (m.rows.head?.map List.length).getD 0).sum)
           (hcat (masks.map (·.rows)))).map fun c => !condOf condAll c)) := by
-  match masks, hne, h1 with
-  | [], hne, _ => exact absurd rfl hne
-  | [⟨true, rows⟩], _, h1 => exact absurd rfl (h1 rows)
-  | [⟨false, rows⟩], _, _ =>
-    simp [dropnaKeep, condOf, List.map_map, Function.comp_def]
-  | m :: m2 :: ms, _, _ =>
-    simp [dropnaKeep, condOf, List.map_map, Function.comp_def]
+  match masks, hne with
+  | [], hne => exact absurd rfl hne
+  | m :: ms, _ => simp [dropnaKeep, condOf, List.map_map, Function.comp_def]
 
-/-- The single 1-D block: `dropna_to_keep_locations` uses the 1-D unified mask as `to_drop` whatever the
-    axis, so `Frame.dropna(axis=1)` hands `_extract` a column key of length `nrows`: IndexError for the
-    1-D layout, the (correct) empty column selection for the same column stored as a 2-D block. -/
-theorem dropna_columns_oneD_counterexample :
-    frameDropna true false 2 1 [⟨true, [[false], [true]]⟩] = .error .lookup ∧
+/-- one 1-D block and the same column as a 2-D block give the same result -/
+example : frameDropna true false 2 1 [⟨true, [[false], [true]]⟩] = .ok ([0, 1], []) ∧
     frameDropna true false 2 1 [⟨false, [[false], [true]]⟩] = .ok ([0, 1], []) ∧
-    frameDropna true true 2 1 [⟨true, [[false], [true]]⟩] = .error .lookup ∧
-    frameDropna true true 2 1 [⟨false, [[false], [true]]⟩] = .ok ([0, 1], [0]) := by decide
+    frameDropna true true 2 1 [⟨true, [[false], [true]]⟩] = .ok ([0, 1], [0]) ∧
+    frameDropna false true 2 1 [⟨true, [[false], [true]]⟩] = .ok ([0], [0]) := by decide
 
 /-- `fillna`: element, label-aligned Series (`none` = label not covered: untouched), label-aligned Frame
     with `fill_valid` mask on every block, and `fillna_by_values` per column: each cell becomes
@@ -283,5 +246,39 @@ example : seriesDropna isna0 [0, 4, 0, 6] = [1, 3] := by decide
 example : seriesCount isna0 [0, 4, 0, 6] = 2 := by decide
 example : dropnaKeep false false [⟨true, [[true], [false]]⟩, ⟨false, [[false, false], [false, false]]⟩]
     = .ok (some [false, true], none) := by decide
+example : colSidedAxis0 isna0 false 9 false true [0, 4, 0, 0] = [0, 4, 9, 9] := by decide
+
+/-! ### pinned-tree behaviour (historical): the three deviations the check found, as proved
+    counterexamples on the `…Pinned` definitions -/
+
+/-- Pinned tree (repaired in /repo 5a58a46): backward, limit 2, row `[NA | NA 5 NA NA 7]` (a 1-D block then a
+    2-D block): `bridging_count` was read from the LAST yielded slice (length 2) instead of the one next to
+    the left edge (length 1), so the 1-D block to the left was not filled. -/
+theorem pinned_directional_backward_counterexample :
+    ¬ (∀ (limit : Nat) (blocks : List (RBlock Nat)),
+        (rowDirAxis1Pinned isna0 false limit blocks).flatten = bfillSpec isna0 limit (flat blocks)) := by
+  intro h
+  have := h 2 [⟨true, false, 0, []⟩, ⟨false, false, 0, [5, 0, 0, 7]⟩]
+  revert this
+  decide
+
+example : (rowDirAxis1Pinned isna0 false 2 [⟨true, false, 0, []⟩, ⟨false, false, 0, [5, 0, 0, 7]⟩]).flatten
+    = [0, 5, 5, 7, 7, 7] := by decide
+
+/-- Pinned tree (repaired in /repo 53925e1): the 1-D unified mask of ONE 1-D block was used as `to_drop`
+    whatever the axis, so `Frame.dropna(axis=1)` handed `_extract` a column key of length `nrows`. -/
+theorem pinned_dropna_columns_oneD_counterexample :
+    frameDropnaPinned true false 2 1 [⟨true, [[false], [true]]⟩] = .error .lookup ∧
+    frameDropnaPinned true false 2 1 [⟨false, [[false], [true]]⟩] = .ok ([0, 1], []) ∧
+    frameDropnaPinned true true 2 1 [⟨true, [[false], [true]]⟩] = .error .lookup := by decide
+
+/-- Pinned tree (repaired in /repo c25795d): a sided fill along axis 0 of a block without rows was an
+    IndexError; with at least one row the pinned and the repaired code agree. -/
+theorem pinned_sided_axis0_zero_rows_counterexample :
+    colSidedAxis0Pinned isna0 true 9 false false [] = .error .lookup ∧
+    colSidedAxis0 isna0 true 9 false false [] = [] ∧
+    (∀ (leading : Bool) (v : Nat) (oneD others : Bool) (col : List Nat), col ≠ [] →
+      colSidedAxis0Pinned isna0 leading v oneD others col = .ok (colSidedAxis0 isna0 leading v oneD others col)) :=
+  ⟨by decide, by decide, fun leading v oneD others col h => colSidedAxis0Pinned_spec leading v oneD others col h⟩
 
 end SF.C14
